@@ -118,3 +118,24 @@ theorem hole_lemma (s : Asg) (res : Nat) (I : Expr) (σ : Store)
     intro hh; exact hy (congrArg Prod.fst hh)
 
 end C06
+
+namespace C06
+open MiniF
+
+/-- a prefix `P` that leaves the value of `I` in the fresh scalar `res` (touching only
+variables in `F`), followed by the assignment `S`, computes `S[res := I]`. -/
+theorem prefix_then_asg (P : Stmt) (s : Asg) (res : Nat) (I : Expr) (F : Nat → Prop) (σ : Store)
+    (hP : AgreeOn (fun y => ¬ F y) (exec P σ) (σ.set (res, 0, 0) (eval I σ)))
+    (hF : ∀ y ∈ s.vars, ¬ F y)
+    (hres : res ∉ s.tgt.iarrs ++ arrs s.rhs) :
+    AgreeOn (fun y => ¬ F y ∧ y ≠ res) (exec (.seq P s.stmt) σ) (exec (s.subst res I).stmt σ) := by
+  have h1 := Asg.exec_agree (s := s) hF hP
+  have h2 := hole_lemma s res I σ hres
+  intro y hy i j
+  simp only [exec]
+  rw [h1 y hy.1 i j, h2 y hy.2 i j]
+
+theorem abs_val (v : Int) : (if v > 0 then v else v * -1) = evalUn .abs v := by
+  simp only [evalUn]; split <;> split <;> omega
+
+end C06
